@@ -25,7 +25,7 @@ SPEC = {
     "required_obs": {"quick": ["logical_line_len/70", "logical_line_len/71", "logical_line_len/72", "logical_line_len/73", "logical_line_len/74", "logical_line_len/75",
                                "logical_line_len/142", "logical_line_len/143", "logical_line_len/144", "logical_line_len/213", "logical_line_len/214", "logical_line_len/215",
                                "wraps_per_logical_line/0", "wraps_per_logical_line/1", "wraps_per_logical_line/2", "wraps_per_logical_line/3",
-                               "cov_zero_bonds", "cov_parser_made", "cov_corpus", "cov_wide_bond_line", "cov_wrapped_bond_line_by_construction", "wrapped_bond_lines", "cov_mixed_zero_and_nonzero_coordinates"]},
+                               "cov_zero_bonds", "cov_parser_made", "cov_corpus", "cov_wide_bond_line", "cov_wrapped_bond_line_by_construction", "wrapped_bond_lines", "cov_mixed_zero_and_nonzero_coordinates", "cov_partial_coordinate_keys"]},
     "watchdog_s": {"quick": 900, "thorough": 5400},
 }
 PLAN = {"quick": {"targeted": 5000, "random": 1500, "cycle": 600}, "thorough": {"targeted": 60000, "random": 15000, "cycle": 6000}}
@@ -169,6 +169,13 @@ def run(ctx):
                     a.y = -0.0
             ctx.count("cov_mixed_zero_and_nonzero_coordinates")
         g = bridge.graph_direct(mol)
+        if rng.random() < 0.25:
+            # flat drawings / partial positions: some coordinate KEYS are simply absent on some atoms (the writer's default is 0 per coordinate)
+            for v, d in g.nodes(data=True):
+                for key in ("z_coord", "y_coord", "x_coord"):
+                    if rng.random() < (0.7 if key == "z_coord" else 0.15):
+                        d.pop(key, None)
+            ctx.count("cov_partial_coordinate_keys")
         if rng.random() < 0.4 and g.number_of_edges():
             # labels wide enough that BOND lines exceed 72 characters and wrap (one or two times), targeted around the wrap boundary
             w = rng.choice([20, 30, 32, 33, 34, 35, 36, 40, 66, 68, 70, 72])
